@@ -23,7 +23,8 @@ USER = [['type', 'P', 'p0', 'F:1/3'],
         ['unit', 'P', 'pt', ['term', [['D:0.1', 1], ['p0', 1]]]],
         ['type', 'PQ', 'q0', 'D:0.05'],   # same unit scales, other quantum
         ['unit', 'PQ', 'q7', ['scaled', 'i:7', 'q0']],
-        ['unit', 'PQ', 'qt', ['term', [['D:0.1', 1], ['q0', 1]]]]]
+        ['unit', 'PQ', 'qt', ['term', [['D:0.1', 1], ['q0', 1]]]],
+        ['unit', 'PQ', 'qn', ['scaled', 'i:-2', 'q0']]]   # negative scale
 
 
 def ratio_lists(alphabet, maxlen):
@@ -107,10 +108,10 @@ def run_alloc(w, sym, amount, ratios, disperse, mode, st=None, sym2=None):
             if (a / g).denominator != 1:
                 out.append((tag + ':off-grid', f"{case}: portion {i} = {a} "
                             f"is not a multiple of {g}"))
-            elif abs(a - s) >= g:
+            elif abs(a - s) >= abs(g):
                 out.append((tag + ':deviation',
                             f"{case}: portion {i} = {a}, exact share {s}, "
-                            f"deviation {abs(a - s) / g} quanta"))
+                            f"deviation {abs(a - s) / abs(g)} quanta"))
         if (ra / g).denominator != 1:
             out.append((tag + ':off-grid', f"{case}: remainder {ra}"))
         if disperse:
@@ -118,7 +119,7 @@ def run_alloc(w, sym, amount, ratios, disperse, mode, st=None, sym2=None):
                 out.append((tag + ':remainder', f"{case}: remainder {ra} "
                             "although the error is dispersed"))
         else:
-            bound = n * g / 2 if mode in O.HALF_MODES else n * g
+            bound = n * abs(g) / 2 if mode in O.HALF_MODES else n * abs(g)
             if (abs(ra) > bound) if mode in O.HALF_MODES else \
                     (abs(ra) >= bound):
                 out.append((tag + ':remainder', f"{case}: |remainder| "
@@ -169,7 +170,8 @@ def quantities(w, wname):
                 for s in ('EUR', 'JPY', 'TND')]
     return [(s, r, [t * grid(w, s) for t in TS])
             for s, r in (('p0', 'p0'), ('p7', 'p0'), ('q7', 'q0'),
-                         ('pt', 'p0'), ('qt', 'q0'), ('q0', 'q0'))]
+                         ('pt', 'p0'), ('qt', 'q0'), ('q0', 'q0'),
+                         ('qn', 'q7'))]
 
 
 def make_world(wname):
